@@ -18,12 +18,15 @@ META = {
                   "x placement {content, quoted attribute value, <script>} x partial/macro/imported/layout format x every body of "
                   "<=1 (quick) / <=2 (thorough) items over {text, text with a tag, show of an escapable constant, render q.F, the "
                   "same via a variable, typed macro declaration + call} (+ directory layouts up to 2 deep, the three import forms, "
+                  "render nesting 3 deep with alternating formats (html->md->html->md with the bracketing converter; quick: the two "
+                  "HTML/Markdown alternations in the render and call kinds, thorough: every pair in every kind), a partial in another "
+                  "directory shared by two files or referenced twice by one file and followed by a relative reference, "
                   "a layout redeclaring the macro, seeded longer bodies) and checks on each: the reference satisfies the "
                   "property's relations, the mechanism with the two proposed fixes equals the reference, the mechanism as written "
                   "leaves it only through a {{ render }} of a mismatching format or a tag in a foreign-typed macro. Every case's "
                   "variants are built and run by the real BuildTemplate/Run and the outputs judged by the relations in TLA+.",
     "level_note": "Trusted: TLC, the Json module, the Go driver that only concatenates source fragments, builds, runs and logs. "
-                  "One escapable constant, fixed text atoms, <=2 nesting levels of render, macros without parameters, four of the "
+                  "One escapable constant, fixed text atoms, <=3 nesting levels of render below the main file, macros without parameters, four of the "
                   "six formats (no css/json), quoted attributes only, a bracketing fixture instead of a CommonMark converter. "
                   "Escape spellings are transcribed from today's code and used for the drift diagnostics only.",
     "design_ref": "7/C16",
@@ -111,7 +114,7 @@ def text(a):
 def sample(o):
     d = o["d"]
     s = {"case": "%s host=.%s ctx=%s inner=%s lay=%d imp=%s body=%s" % (
-        d["kind"], d["hf"], d["pl"], d["pf"], d["lay"], d["imp"], " ".join(i["k"] + (":" + i["f"] if i["f"] else "") for i in d["body"]))}
+        d["kind"], d["hf"], d["pl"], d["pf"], d["lay"], d["imp"], " ".join(i["k"] + (":" + i["f"] if i["f"] else "") + ("/" + i["g"] if i.get("g") else "") for i in d["body"]))}
     for v in o["variants"]:
         s[v["name"]] = v["outcome"] + ": " + text(v["out"]) if v["outcome"] == "ok" else v["outcome"] + ": " + v.get("err", "")[:160]
     v0 = o["variants"][0]
@@ -136,7 +139,7 @@ def corrupt(o):
 
 
 def bounds(ctx):
-    return {"MaxLen": ctx.pick(1, 2), "NSample": ctx.pick(100, 1000), "Seed": ctx.seed}
+    return {"MaxLen": ctx.pick(1, 2), "NSample": ctx.pick(100, 600), "Seed": ctx.seed, "Full": not ctx.quick}
 
 
 def judge(ctx, step, allobs, drift_every, pool=None, shard=2500):
@@ -184,7 +187,7 @@ def mc_coverage(ctx):
     """Thorough tier: TLC -coverage on the space of bodies of <= 1 item: which actions were never taken and which
     expressions of the reference / implementation-shaped model (Compose.tla) were never evaluated."""
     wd = ctx.stage("mc_cov", FAMS)
-    rig.write_cfg(wd / "MC_Compose.cfg", constants={"MaxLen": 1, "NSample": 0, "Seed": 1, "Mode": "all"}, invariants=["Theorems"])
+    rig.write_cfg(wd / "MC_Compose.cfg", constants={"MaxLen": 1, "NSample": 0, "Seed": 1, "Mode": "all", "Full": True}, invariants=["Theorems"])
     r = ctx.tlc(wd, "MC_Compose", workers=2, timeout=1500, coverage=True, must_pass=True)
     never, lo, hi = [], None, None
     src = (wd / "Compose.tla").read_text().splitlines()
@@ -203,7 +206,7 @@ def mc_diag(ctx, step, inv):
     """Diagnostic: the mechanism AS WRITTEN against the property's relations, at the model level.  A counterexample is
     expected while the defects are in the tree: it is the minimal model-level witness, not a verdict."""
     wd = ctx.stage(step, FAMS)
-    rig.write_cfg(wd / "MC_Compose.cfg", constants={"MaxLen": 1, "NSample": 0, "Seed": 1, "Mode": "diag"}, invariants=[inv])
+    rig.write_cfg(wd / "MC_Compose.cfg", constants={"MaxLen": 1, "NSample": 0, "Seed": 1, "Mode": "diag", "Full": False}, invariants=[inv])
     r = ctx.tlc(wd, "MC_Compose", workers=2, timeout=900, heap="2g")
     if r.invariant_violated:
         st = re.findall(r"(?ms)^c = (.*?)(?=^\s*$|\Z)", r.out)
@@ -277,8 +280,7 @@ def run(ctx, only_cases=None):
     if drift["calib_bad"]:
         raise Infra(f"the atom table of Compose.tla does not describe the real output of {drift['calib_bad']} calibration file(s)")
     ctx.cov["model_drift"] = {"records": drift["records"], "every": drift_every, "aswritten_model_mispredicts": drift["aswritten"],
-                              "render_fix_only_model_mispredicts": drift["renderfixed"],
-                              "fixed_model_mispredicts": drift["fixed"], "reference_differs": drift["ref"],
+                                                            "fixed_model_mispredicts": drift["fixed"], "reference_differs": drift["ref"],
                               "ref_undefined": drift["ref_undefined"], "records_with_a_variant_not_built": drift["not_built"],
                               "aswritten_model_mispredicts_ids": drift["aswritten_ids"][:20]}
     # reproduction guard: re-run the failing cases in a fresh process and judge again (together with the corrupted
